@@ -202,6 +202,8 @@ def run_case(case, R):
             shutil.rmtree(scratch, ignore_errors=True)
     elif k == "extra":
         specs = [sp for _, sp in space.wide_specs()] + [sp for _, sp in space.wide_array_specs()] + space.magnitude_specs()
+        ndense = len(specs)
+        specs += [sp for _, sp in space.dense_specs()]
         for i, sp in enumerate(specs):
             p = build_checked(sp)
             redundant = any(not numpy.any(numpy.asarray(c)) and any(e) for e, c in zip(p.exponents, p.coefficients))
@@ -217,18 +219,28 @@ def run_case(case, R):
             for op, f in (("copy.deepcopy", copy.deepcopy), (".copy()", lambda x: x.copy())):
                 R.tr()
                 same_exact(R, f"extra {i}", op, p, f(p), sp, ["wide_or_magnitude"], redundant)
-            if sp["d"] == "f8" and max(max(e) for e, _ in sp["t"]) < 60:
-                R.tr()
-                f = io.StringIO()
-                try:
-                    numpoly.savetxt(f, p)
-                    f.seek(0)
-                    q = numpoly.loadtxt(f)
-                except Exception as err:  # noqa: BLE001
-                    R.fail("savetxt/loadtxt", "exception", f"magnitudes {sp['t']}: {type(err).__name__}: {err}", tags=["wide_or_magnitude"])
-                    continue
-                if not isinstance(q, numpoly.ndpoly) or tuple(q.shape) != tuple(p.shape) or alpha(q) != model_of(sp):
-                    R.fail("savetxt/loadtxt", "wrong-value", f"magnitudes {sp['t']}: loaded {q!r}", tags=["wide_or_magnitude"])
+            if (sp["d"] == "f8" or i >= ndense) and max(max(e) for e, _ in sp["t"]) < 60:
+                for target in ("StringIO", "BytesIO", "path"):
+                    R.tr()
+                    scratch = tempfile.mkdtemp(prefix="c13x-") if target == "path" else None
+                    try:
+                        if target == "path":
+                            f = os.path.join(scratch, "p.txt")
+                            numpoly.savetxt(f, p)
+                            q = numpoly.loadtxt(f)
+                        else:
+                            f = io.StringIO() if target == "StringIO" else io.BytesIO()
+                            numpoly.savetxt(f, p)
+                            f.seek(0)
+                            q = numpoly.loadtxt(f)
+                    except Exception as err:  # noqa: BLE001
+                        R.fail("savetxt/loadtxt", "exception", f"extra {i} {str(sp['t'])[:80]} via {target}: {type(err).__name__}: {str(err)[:200]}", tags=["wide_or_magnitude"])
+                        continue
+                    finally:
+                        if scratch:
+                            shutil.rmtree(scratch, ignore_errors=True)
+                    if not isinstance(q, numpoly.ndpoly) or tuple(q.shape) != tuple(p.shape) or alpha(q) != model_of(sp):
+                        R.fail("savetxt/loadtxt", "wrong-value", f"extra {i} {str(sp['t'])[:80]} via {target}: loaded {str(q)[:200]}", tags=["wide_or_magnitude"])
     elif k == "plain":
         # a file without the numpoly header loads as a plain array
         for arr in (numpy.arange(6.0).reshape(2, 3), numpy.array([1.5, 2.5]), numpy.array([[7.0]])):
